@@ -36,7 +36,7 @@ PROP = {
                      ["samples_judged_round", "samples_judged_miter", "samples_judged_square", "samples_judged_bevel",
                       "samples_judged_small_delta", "orientation_paths_checked", "overshrink_cases", "result_vertices_checked"]),
     "jobs": [
-        {"mon": "mon_c06", "cfg": "plain", "cases": _q(20000, 600000)},
+        {"mon": "mon_c06", "cfg": "plain", "cases": _q(24192, 600000)},
         {"mon": "mon_c06", "cfg": "hp", "cases": _q(4000, 150000), "seed_off": 1000003},
         {"mon": "mon_c06", "cfg": "portable", "cases": _q(0, 100000), "seed_off": 2000003},
     ],
